@@ -23,6 +23,8 @@ func init() {
 func runC01(c *Ctx) {
 	c.rule("order-config", "Config fills slot i from sources[i].Value(...) with the same range index, once, in a forward range, and never reorders the slot slice", 2)
 	c.rule("order-compose", "compose overlays its slots in a forward range (index = induction variable + 1 from -1), each iteration overlaying the element at that index onto the one base defined before the loop", 2)
+	c.rule("struct-ptr-merges", "in the leaf overlay a base pointer is replaced wholesale by (something derived from) the overlay only when the base pointer is nil, its pointee type is not a struct, or it is a text-unmarshaler struct: a non-nil pointer to a struct is merged field by field", 2)
+	c.rule("slots-persist", "(shared with C02/C05) a source's slot value is written only by Config's initial fill and the identity-matched replacement: a layer never loses its value while later layers re-stack", 2)
 	c.rule("nil-skip", "in the leaf overlay routine no mutation (Set, recursion into merge routines) is reachable when the overlay operand is of a nil-able kind Pointerify can emit {Ptr, Map, Slice, Interface} and IsNil: 'a source that sets nothing changes nothing'", 3)
 	c.rule("unset-repr", "every field type Pointerify retains is nil-able: pointerifyField returns the original field only under kinds {Map, Slice, Interface, Ptr, Chan, Func} and otherwise a field whose type is reflect.PtrTo(...)/a concrete Map/Slice type", 4)
 	c.rule("omit-agree", "Pointerify drops a field exactly when OmitField(field) or its kind is Chan/Func; the overlay walk skips a base field exactly under the same predicate (same function object, same kind set)", 3)
@@ -62,6 +64,10 @@ func runC01(c *Ctx) {
 
 	// ---- nil-skip -------------------------------------------------------------------
 	c01NilSkip(c, leaf)
+
+	// ---- struct-ptr-merges ------------------------------------------------------------
+	c01StructPtrMerges(c, leaf)
+	c05Slots2(c, k, "slots-persist")
 
 	// ---- unset-repr --------------------------------------------------------------------
 	c01UnsetRepr(c, pfield)
@@ -726,3 +732,73 @@ func c01StructPrecond(c *Ctx, k *core, merge *ssa.Function, rule string) {
 }
 
 var _ = types.Typ
+
+// c01StructPtrMerges: wholesale replacement of the base pointer in the leaf
+// overlay's Ptr arm.
+func c01StructPtrMerges(c *Ctx, leaf *ssa.Function) {
+	name := relName(leaf)
+	base := leaf.Params[len(leaf.Params)-2]
+	ov := leaf.Params[len(leaf.Params)-1]
+	baseKind := "(reflect.Value).Kind(" + base.Name() + ")"
+	pb := &predBuilder{name: func(v ssa.Value) string {
+		call, ok := v.(*ssa.Call)
+		if !ok {
+			return ""
+		}
+		switch calleeFullName(call) {
+		case "(reflect.Value).IsNil":
+			if call.Call.Args[0] == ssa.Value(base) {
+				return "baseNil"
+			}
+		case "(reflect.Type).Kind":
+			// Kind(Elem(Type(base)))
+			if el, ok := call.Call.Value.(*ssa.Call); ok && call.Call.IsInvoke() && calleeFullName(el) == "(reflect.Type).Elem" {
+				if ty, ok := el.Call.Value.(*ssa.Call); ok && calleeFullName(ty) == "(reflect.Value).Type" && ty.Call.Args[0] == ssa.Value(base) {
+					return "elemKind.Kind()"
+				}
+			}
+		}
+		if callee := staticCallee(call); callee != nil && callee.Name() == "IsTextUnmarshalerStruct" {
+			return "textU"
+		}
+		return ""
+	}}
+	n := 0
+	for _, i := range allInstrs(leaf) {
+		ci, ok := i.(*ssa.Call)
+		if !ok || calleeFullName(ci) != "(reflect.Value).Set" || ci.Call.Args[0] != ssa.Value(base) {
+			continue
+		}
+		x := ci.Call.Args[1]
+		fromOverlay := derivesAny(x, func(v ssa.Value) bool { return v == ssa.Value(ov) }, &flowOpts{through: map[string]bool{"(reflect.Value).Elem": true}})
+		if !fromOverlay {
+			continue
+		}
+		g := pb.pathCond(leaf.Blocks[0], ci.Block())
+		// only the Ptr arm of the base-kind switch
+		ks := kindsWhere(g, baseKind)
+		if !ks[kPtr] {
+			continue
+		}
+		n++
+		fb, fi := map[string]bool{}, map[string]bool{}
+		atomsOf(g, fb, fi)
+		_, counter := forAll(g, map[string][]int64{baseKind: {kPtr}, "elemKind.Kind()": allKinds}, func(e env, fv bool) bool {
+			if !fv {
+				return true
+			}
+			if fb["baseNil"] && e.B["baseNil"] {
+				return true
+			}
+			if fb["textU"] && e.B["textU"] {
+				return true
+			}
+			return fi["elemKind.Kind()"] && e.I["elemKind.Kind()"] != kStruct
+		})
+		c.check(counter == "", "struct-ptr-merges", name+"#replace#"+itoa(n), ci.Pos(), "the base pointer is replaced only when nil / pointee not a struct / text-unmarshaler struct",
+			"a non-nil base pointer to a struct can be replaced wholesale by the overlay's pointer: members the layer left unset are wiped instead of showing through (nested structs must merge field by field): "+counter)
+	}
+	if n == 0 {
+		c.bad("struct-ptr-merges", name, leaf.Pos(), "no pointer replacement found in the Ptr arm of the leaf overlay")
+	}
+}
